@@ -12,7 +12,7 @@
    check_NP24 (sets check_completed)              SVerify
    compress_NP24 / compress_NP21 with
      Reader.compress_file = mtscomp.compress
-     to .cbin_tmp + .ch, rename, then unlink      comp_steps (SUnlink, SCompBegin, SCompEnd, SRename)
+     to .cbin_tmp + .ch_tmp, two renames, unlink  comp_steps (SUnlink, SCompBegin, SCompEnd, SRenameCh, SRename)
    delete_NP24 (guard check_completed)            SDeleteOrig
    exception raised at site call number c         crash index c: exec (firstn c plan)
    a fresh converter object per run               run_once; a history is a list of runspec
@@ -24,7 +24,7 @@ Import ListNotations.
 
 Inductive kind := NP24 | NP21 | NP1.
 Inductive etype := Ap | Lf.
-Inductive fkind := FBin | FCbin | FTmp | FCh | FMeta.
+Inductive fkind := FBin | FCbin | FTmp | FCh | FMeta | FChTmp.
 (* Orig: the recording given to the converter (x.ap.bin ...), Lf21: the x.lf.bin ... files
    an NP2.1 run writes next to it, Shank k e: the e-band files inside shank folder k. *)
 Inductive owner := Orig | Lf21 | Shank (k : nat) (e : etype).
@@ -37,7 +37,7 @@ Definition etype_eqb (a b : etype) : bool :=
   match a, b with Ap, Ap | Lf, Lf => true | _, _ => false end.
 Definition fkind_eqb (a b : fkind) : bool :=
   match a, b with
-  | FBin, FBin | FCbin, FCbin | FTmp, FTmp | FCh, FCh | FMeta, FMeta => true
+  | FBin, FBin | FCbin, FCbin | FTmp, FTmp | FCh, FCh | FMeta, FMeta | FChTmp, FChTmp => true
   | _, _ => false end.
 Definition owner_eqb (a b : owner) : bool :=
   match a, b with
@@ -76,7 +76,8 @@ Inductive step :=
   | SVerify (n : nat)                     (* check_NP24 *)
   | SUnlink (p : path) (missing_ok : bool)
   | SCompBegin (o : owner)                (* mtscomp.compress: open(.cbin_tmp, "wb") *)
-  | SCompEnd (o : owner)                  (* ... all chunks written, .ch written, check passed *)
+  | SCompEnd (o : owner)                  (* ... all chunks written, .ch_tmp written, check passed *)
+  | SRenameCh (o : owner)                 (* ch_tmp.rename(.ch) *)
   | SRename (o : owner)                   (* file_tmp.rename(.cbin) *)
   | SDeleteOrig (f : fkind).              (* delete_NP24() *)
 
@@ -117,7 +118,11 @@ Definition step_sem (s : step) (rs : rstate) : res :=
       else Err EFileNotFound
   | SCompEnd o =>
       let v := if complete fs (PFile o FBin) then Complete else Partial in
-      Ok (mkR (upd (upd fs (PFile o FTmp) v) (PFile o FCh) v) ck)
+      Ok (mkR (upd (upd fs (PFile o FTmp) v) (PFile o FChTmp) v) ck)
+  | SRenameCh o =>
+      if present fs (PFile o FChTmp)
+      then Ok (mkR (upd (upd fs (PFile o FCh) (fs (PFile o FChTmp))) (PFile o FChTmp) Absent) ck)
+      else Err EFileNotFound
   | SRename o =>
       if present fs (PFile o FTmp)
       then Ok (mkR (upd (upd fs (PFile o FCbin) (fs (PFile o FTmp))) (PFile o FTmp) Absent) ck)
@@ -188,7 +193,7 @@ Definition verify24 (n : nat) (corrupt : option nat) : list step :=
    Reader(bin).compress_file(); bin.unlink() *)
 Definition comp_steps (ow : bool) (o : owner) : list step :=
   (if ow then [SUnlink (PFile o FCbin) true] else [])
-  ++ [SCompBegin o; SCompEnd o; SRename o; SUnlink (PFile o FBin) false].
+  ++ [SCompBegin o; SCompEnd o; SRenameCh o; SRename o; SUnlink (PFile o FBin) false].
 Definition comp24 (ow : bool) (n : nat) : list step :=
   flat_map (fun k => comp_steps ow (Shank k Ap) ++ comp_steps ow (Shank k Lf)) (seq 0 n).
 
@@ -211,7 +216,7 @@ Definition already21 (ow : bool) (fs : fsys) : bool :=
   (present fs (PFile Lf21 FBin) || present fs (PFile Lf21 FCbin)) && negb ow.
 Definition origcomp21 (tf : fkind) : list step :=
   match tf with
-  | FBin => [SCompBegin Orig; SCompEnd Orig; SRename Orig; SUnlink (PFile Orig FBin) false]
+  | FBin => [SCompBegin Orig; SCompEnd Orig; SRenameCh Orig; SRename Orig; SUnlink (PFile Orig FBin) false]
   | _ => []
   end.
 Definition plan21 (w : nat) (o : opts) (ow : bool) (tf : fkind) (fs : fsys) : list step :=
